@@ -371,6 +371,10 @@ class C16(Property):
       raise _Mismatch("construct", "Streamix(keep=%r, zero=%r) raised %r"
                       % (wl["keep"], zero, exc))
     add_fn = lambda acc, item: acc + item
+    # a second mixer filled before this one is used and kept alive: state
+    # shared between instances shows up inside this very run
+    decoy = self.ls.Streamix(zero=0)
+    decoy.add(1, [70001, 70002])
     states = [MixState(wl["keep"], make_zero(kind))]
     wl_keep = [wl["keep"]]  # current value of the public keep attribute
     inflight = []           # adds made by playing events during this sample
@@ -559,6 +563,15 @@ class C16(Property):
                             "samples although no event is playing or pending"
                             % produced)
           slack -= max(1, produced - before)
+    try:
+      dgot = guarded("decoy", lambda: decoy.take(5))
+    except _Mismatch:
+      raise
+    except Exception as exc:
+      raise _Mismatch("second-instance", "the other mixer raised %r" % (exc,))
+    if dgot != [0, 70001, 70002]:
+      raise _Mismatch("second-instance", "a second, independent mixer gave "
+                      "%r instead of [0, 70001, 70002]" % (dgot,))
     st = states[0]
     starts = sorted(st.starts.values())
     if len(starts) != len(set(starts)):
@@ -570,6 +583,7 @@ class C16(Property):
   # ----------------------------------------------------------- ControlStream
   def _run_ctrl(self, wl, S, res, events):
     Stream = self.ls.Stream
+    decoy = self.ls.ControlStream(555)
     cs = self.ls.ControlStream(7)
     current = 7
     mode = wl["mode"]
@@ -628,6 +642,10 @@ class C16(Property):
           raise _Mismatch("value", "%s stream gave %r, most recently "
                           "assigned value is %r (expected %r)"
                           % (mode, got, current, want))
+    dgot = decoy.take(2)
+    if dgot != [555, 555]:
+      raise _Mismatch("second-instance", "a second, independent "
+                      "ControlStream gave %r instead of [555, 555]" % (dgot,))
     if mode != "direct":
       # the ControlStream object itself goes away; what was built from it
       # keeps yielding the value most recently assigned
